@@ -27,8 +27,8 @@ ENTRY = dict(
                 "probing round is in progress are not modelled"),
     technique="Lean 4 proof (fork kernel, join window theorem, kernel-checked witness) + exhaustive lock-step replay",
     lean_modules=["Bpmn.Props.C05", "Bpmn.Props.C05Tracker", "Bpmn.Props.EngineCurrent"],
-    families=["c05", "c05d", "c05n", "c01re", "c05trk"],
-    harness_files=["c03.go", "c01re.go"],
+    families=["c05", "c05d", "c05n", "c01re", "c01patient", "c05trk"],
+    harness_files=["c03.go", "c01re.go", "c01patient.go"],
     exhaustive=True,
     facts_from=["Engine"],
     rule=("c01re: the same inclusive fork / join pair activated 2..3 times in a loop, a different truth assignment in every round (all pairs of assignments for 2 conditions, a third of them for 3; default absent / first / last in the list; branch tasks answered first-first or last-first), judged against the token game; c05: start -> A -> inclusive fork (c conditions `b_i == 1`, optional default at list position d) -> one task per "
